@@ -1,6 +1,7 @@
 import Model
 import Proofs.Walk
 import Proofs.DepGlobal
+import Proofs.Deadline
 import Proofs.WFCheck
 /-!
 C04 — dependencies and gaps are respected (forward mode end to end; backward mode via the deadline formula).
@@ -104,6 +105,34 @@ example : FwdEff (elaborate gapProj).env 1 :=
 example : ((elaborate gapProj).env.taskD 1).allDeps.length = 1 ∧
     ∀ dp ∈ ((elaborate gapProj).env.taskD 1).allDeps, ((elaborate gapProj).env.taskD dp.target).leaf = true := by
   decide +kernel
+
+/-! ### backward mode, one task end to end -/
+
+/-- **one backward task**: a successful `schedule()` of an effort task in backward mode (ALAP), started in any state,
+    leaves it with an end at or before its deadline — its own `end`, or else the deadline computed from its successors -/
+theorem task_end_respects_deadline (e : Env) (wf : WF e) (σ : St) (t : Nat) (hb : t < σ.ts.size)
+    (hf : (σ.tst t).forward = false) (hpos : 0 < (e.taskD t).effort) (hnd : (σ.tst t).done = false)
+    (hok : (scheduleTask e σ t).2 = true) :
+    ∃ v, ((scheduleTask e σ t).1.tst t).stop = some v ∧ v ≤ deadlineOf e σ t :=
+  scheduleTask_stop_le e wf σ t hb hf hpos hnd hok
+
+/-- … and that computed deadline is at or before the start of every scheduled successor minus the largest gap the
+    successor asks towards the task or one of its enclosing containers, and at or before the project end -/
+theorem deadline_respects_successors (e : Env) (σ : St) (t s : Nat) (hs : s ∈ successors e t) (ss : Int)
+    (hss : (σ.tst s).start = some ss) : latestEnd e σ t ≤ ss - succGap e t s ∧ latestEnd e σ t ≤ e.stop :=
+  ⟨latestEnd_le_succ e σ t s hs ss hss, latestEnd_le_stop e σ t⟩
+
+/-- combined: a backward effort task without an end of its own ends at or before `start(s) − gap` of every successor
+    `s` that is scheduled when the task is placed -/
+theorem backward_end_respects_successor (e : Env) (wf : WF e) (σ : St) (t s : Nat) (hb : t < σ.ts.size)
+    (hf : (σ.tst t).forward = false) (hpos : 0 < (e.taskD t).effort) (hnd : (σ.tst t).done = false)
+    (hns : (σ.tst t).stop = none) (hok : (scheduleTask e σ t).2 = true)
+    (hs : s ∈ successors e t) (ss : Int) (hss : (σ.tst s).start = some ss) :
+    ∃ v, ((scheduleTask e σ t).1.tst t).stop = some v ∧ v + succGap e t s ≤ ss := by
+  obtain ⟨v, hv, hle⟩ := scheduleTask_stop_le e wf σ t hb hf hpos hnd hok
+  have hd : deadlineOf e σ t = latestEnd e σ t := by unfold deadlineOf; rw [hns]
+  have := latestEnd_le_succ e σ t s hs ss hss
+  exact ⟨v, hv, by omega⟩
 
 /-- backward mode: the deadline of a predecessor is at most (successor start − the largest gap the
     successor asks towards it or an enclosing container), for every scheduled successor -/
